@@ -16,7 +16,7 @@ RULE = ("every scenario (random tree, one of the five kill plugins or systemd_re
         "run's first attempted victim; the action after the kill plugin runs (or not) identically and the second chain start happens on "
         "the same tick in both runs. non-trivial = the wet run made >=1 kill attempt (or issued a D-Bus call); distinct by scenario hash")
 ASSUMPTIONS = ["all kills succeed in the wet run (so wet == 'after a successful kill', the case the property compares with)",
-               "no D-Bus in the sandbox: a wet systemd_restart is observed only up to sd_bus_open_system"]
+               "no D-Bus in the sandbox: the sd_bus_* entry points are defined by the harness and play a system bus whose manager accepts RestartUnit"]
 
 KMSG = re.compile(r"^oomd kill: \S+ \S+ \S+ (\S*) \d+ ruleset:\[(.*?)\] detectorgroup:\[(.*?)\] killer:(\(dry\))?(\S+) v2")
 
@@ -54,6 +54,8 @@ def cases(seed, tier):
         nticks = rng.randint(4, 6) + (2 if hooks else 0)
         ticks = [{"step_ns": rng.choice([1, 1, 2, 3]) * 10**9} for _ in range(nticks)]
         wet = KG.base_scn(cid + "-wet", cgs, cfg, ticks=ticks, hooks=hspec)
+        if plugin == "systemd_restart":
+            wet["dbus"] = "ok"  # a system bus whose manager accepts RestartUnit, so the wet run really restarts and STOPs
         dry = copy.deepcopy(wet)
         dry["id"] = cid + "-dry"
         dry["config"]["rulesets"][0]["actions"][1]["args"]["dry"] = "true"
@@ -94,7 +96,7 @@ def judge(case, results):
     # ---- no side effects in the dry run
     for e in dry.events:
         k = e.get("ev")
-        if k in ("kill", "setxattr", "pidfd_open", "process_mrelease", "sd_bus_open_system"):
+        if k in ("kill", "setxattr", "pidfd_open", "process_mrelease", "sd_bus_open_system", "sd_bus_call_method"):
             v.bad("dry-side-effect", k, "dry run issued %s" % {x: e[x] for x in e if x not in ("seq", "t")})
         elif k == "write" and e["path"].startswith("/cg"):
             v.bad("dry-side-effect", "write:" + e["path"].rsplit("/", 1)[1], "dry run wrote %r to %s" % (e["data"][:30], e["path"]))
@@ -114,6 +116,21 @@ def judge(case, results):
         lines = [l for i in dinv for l in i.kmsg]
         if not any("(dry)" in l and "foo.service" in l for l in lines):
             v.bad("dry-log-missing", plugin, "dry systemd_restart wrote no `(dry)` kmsg line: %s" % lines)
+        calls = [e for e in wet.events if e.get("ev") == "sd_bus_call_method"]
+        v.count("wet_restart_calls", len(calls))
+        if any(e["member"] != "RestartUnit" or e["args"][:1] != ["foo.service"] for e in calls):
+            v.bad("wet-restart-call", plugin, "wet run called %s" % [(e["member"], e["args"]) for e in calls][:3])
+        if wet.end.get("stats", {}).get("oomd.restarts", 0) != len(calls):
+            v.bad("restart-counter", plugin, "wet run: %d RestartUnit calls accepted, oomd.restarts=%s" % (len(calls), wet.end.get("stats", {}).get("oomd.restarts")))
+        # same control flow, tick by tick: the chain starts on the same ticks, the next action never runs (STOP), and each
+        # restart is logged once - wet plain, dry marked
+        for wi, di in zip(winv, dinv):
+            w_, d_ = (wi.pre is not None, wi.post is not None, len(wi.kmsg)), (di.pre is not None, di.post is not None, len(di.kmsg))
+            if w_ != d_:
+                rule = "dry-pause-differs" if w_[0] != d_[0] else "dry-return-differs" if w_[1] != d_[1] else "dry-log"
+                v.bad(rule, plugin, "tick %d: wet (chain started, next action ran, kmsg lines) = %s, dry = %s; args %s, ruleset delay %s" % (
+                    wi.tick, w_, d_, case.meta["args"], case.scns[0]["config"]["rulesets"][0].get("post_action_delay")))
+                break
         return v
     if wet_first is None:
         # nothing to kill in the wet run: the dry run must not claim a victim either
